@@ -80,11 +80,32 @@ func c04Setup() *c04Fix {
 		ver = dec
 		f.txs = append(f.txs, &c04Tx{name: s.name, ver: ver, hash: ver.PayloadHash(), keys: s.keys})
 	}
+	// W: a withdrawal submission whose CHANGE output is keyed k1 — the one
+	// transaction type whose validation takes its own return path; its change
+	// keys must be reserved like any other output key
+	{
+		dep := l.Net.DepositBTC("c04-fund-w", "10", w.acct(), 1)
+		if v, e := w.admit(dep); v != nil || e != nil {
+			panic(fmt.Sprint(v, e))
+		}
+		tx := common.NewTransactionV5(common.BitcoinAssetId)
+		tx.AddInput(dep.PayloadHash(), 0)
+		tx.Outputs = append(tx.Outputs, &common.Output{Type: common.OutputTypeWithdrawalSubmit, Amount: common.NewIntegerFromString("1"), Withdrawal: &common.WithdrawalData{Address: "bc1-c04", Tag: ""}})
+		tx.Outputs = append(tx.Outputs, &common.Output{Type: common.OutputTypeScript, Amount: common.NewIntegerFromString("9"), Keys: []*crypto.Key{f.pool[1]}, Mask: f.mask, Script: common.NewThresholdScript(1)})
+		dec, err := common.UnmarshalVersionedTransaction(w.sign(tx).Marshal())
+		if err != nil {
+			panic(err)
+		}
+		f.txs = append(f.txs, &c04Tx{name: "W", ver: dec, hash: dec.PayloadHash(), keys: []int{1}})
+	}
 	// X: a competitor of A's input (spends the same output, pays to k2); used only
 	// for the finalization-path takeover of A's input (fork lock), which prunes
 	// A's stored body but must leave A's key bindings alone
 	{
 		a := f.txs[0]
+		if a.name != "A" {
+			panic("A is not first")
+		}
 		tx := common.NewTransactionV5(common.BitcoinAssetId)
 		tx.AddInput(a.ver.Inputs[0].Hash, a.ver.Inputs[0].Index)
 		tx.Outputs = append(tx.Outputs, &common.Output{Type: common.OutputTypeScript, Amount: common.NewIntegerFromString("10"), Keys: []*crypto.Key{f.pool[2]}, Mask: f.mask, Script: common.NewThresholdScript(1)})
@@ -344,7 +365,7 @@ func TestMCRace_C04(t *testing.T) {
 func c04Main(t *testing.T) {
 	c := verifmc.Start(t, "C04", "model_checking")
 	defer c.Finish()
-	c.SetRule("BFS over all histories of {Validate, LockGhostKeys(nofork), LockGhostKeys(fork), finalize} x 6 wire-decoded transactions whose output key sets over a pool of 3 real one-time keys are {k0},{k0,k1},{k1,k1},{k2},{k1} (script outputs) and {k0} on a node-remove output; reference = key -> first owner; plus every interleaving (bounded preemptions) of concurrent reservations checked for linearisability")
+	c.SetRule("BFS over all histories of {Validate, LockGhostKeys(nofork), LockGhostKeys(fork), finalize} x 7 wire-decoded transactions whose output key sets over a pool of 3 real one-time keys are {k0},{k0,k1},{k1,k1},{k2},{k1} (script outputs), {k1} on the change output of a withdrawal submission and {k0} on a node-remove output; reference = key -> first owner; plus every interleaving (bounded preemptions) of concurrent reservations checked for linearisability")
 	c.Assume("generated transaction hashes are not one of the three hard-coded historical exceptions (asserted)", "Badger SSI; scheduling points at store mutex and txn begin/commit")
 	probe := c04Setup()
 	for _, tx := range probe.txs {
